@@ -37,6 +37,7 @@ type Scenario struct {
 	// submitted, runs to completion before anything else happens (C02 reference).
 	AtomicRequests bool
 	Known          map[string]bool // signatures of listed known findings
+	Lates          int             // store completions that may reach their coroutine only with the next tick (after a clock step, another completion, a sweep)
 	ClockWhenIdle  bool            // the clock only advances while no client request is in flight
 	StrictDeviations bool          // bounded mode: every non-default choice costs one deviation
 	// Menu is a virtual client that, whenever idle, may issue ANY request of the
@@ -56,6 +57,7 @@ var debugDump = os.Getenv("VERIF_DEBUG_DUMP") != ""
 
 type runState struct {
 	commitFaults int
+	lates        int
 	next    []int
 	infl    []*world.Req
 	faults  int
@@ -71,7 +73,7 @@ func (s *runState) key() string {
 		ks = append(ks, fmt.Sprintf("%s=%d", k, v))
 	}
 	sort.Strings(ks)
-	return fmt.Sprintf("next=%v f=%d sa=%d c=%d sw=%v ck=%d cf=%d", s.next, s.faults, s.sendAlt, s.crashes, ks, s.clockIx, s.commitFaults)
+	return fmt.Sprintf("next=%v f=%d sa=%d c=%d sw=%v ck=%d cf=%d", s.next, s.faults, s.sendAlt, s.crashes, ks, s.clockIx, s.commitFaults*10+s.lates)
 }
 
 type option struct {
@@ -163,7 +165,7 @@ func (sc *Scenario) RunOnce(ch *vx.Chooser, keepLog bool) (res *ExecResult) {
 		m.OnStart(w)
 	}
 	nsetup := len(w.Reqs)
-	st := &runState{next: make([]int, len(sc.Clients)+1), infl: make([]*world.Req, len(sc.Clients)+1), faults: sc.Faults, sendAlt: sc.SendAlt, crashes: sc.Crashes, sweeps: map[string]int{}, commitFaults: sc.CommitFaults}
+	st := &runState{next: make([]int, len(sc.Clients)+1), infl: make([]*world.Req, len(sc.Clients)+1), faults: sc.Faults, sendAlt: sc.SendAlt, crashes: sc.Crashes, sweeps: map[string]int{}, commitFaults: sc.CommitFaults, lates: sc.Lates}
 	for k, v := range sc.Sweeps {
 		st.sweeps[k] = v
 	}
@@ -316,6 +318,16 @@ func (sc *Scenario) options(w *world.World, st *runState) []option {
 			opts = append(opts, sc.faultOpts(w, st, i, p)...)
 		}
 	}
+	if st.lates > 0 {
+		for i, p := range pend {
+			i := i
+			// a read whose answer reaches its coroutine late is a stale read; for a write the
+			// coroutine only answers later, which the arrival order of the requests covers
+			if p.Kind() == t_aio.Store && readOnly(p) {
+				opts = append(opts, option{"late " + p.Label(), 1, func() { st.lates--; w.Exec(i, world.Late) }})
+			}
+		}
+	}
 	if st.commitFaults > 0 {
 		for i, p := range pend {
 			i := i
@@ -363,4 +375,15 @@ func (sc *Scenario) faultOpts(w *world.World, st *runState, i int, p *world.Pend
 		opts = append(opts, option{"failbefore " + p.Label(), 1, func() { st.faults--; w.Exec(i, world.FailBefore) }})
 	}
 	return opts
+}
+
+func readOnly(p *world.Pending) bool {
+	tx := p.SQE.Submission.Store.Transaction
+	for _, c := range tx.Commands {
+		k := c.Kind.String()
+		if !strings.HasPrefix(k, "Read") && !strings.HasPrefix(k, "Search") {
+			return false
+		}
+	}
+	return len(tx.Commands) > 0
 }
